@@ -29,6 +29,8 @@ def suite(name, tier, seed=0):
         return gen.li_programs()
     if name == 'val':
         return gen.value_programs()
+    if name == 'hilo':
+        return gen.hilo_programs()
     if name == 'cedge':
         return gen.compress_edge_programs()
     if name == 'pseudo':
